@@ -232,6 +232,22 @@ class FieldMappingTransformationBase(DetectionItemTransformation):
                 # first iterate over aliases and map the field names contained in them
                 for alias in rule.aliases:
                     for rule_reference, field_name in alias.mapping.items():
+                        # The alias target is a field of the referred rule: it is mapped like the
+                        # fields of this rule, i.e. only if the rule conditions match it.
+                        referred_rule = getattr(rule_reference, "rule", None) or next(
+                            (
+                                getattr(reference, "rule", None)
+                                for reference in rule.referenced_rules
+                                if reference == rule_reference
+                            ),
+                            None,
+                        )
+                        if (
+                            referred_rule is not None
+                            and self.processing_item is not None
+                            and not self.processing_item.match_rule_conditions(referred_rule)
+                        ):
+                            continue
                         mapped_field_name = self._apply_field_name(field_name)
                         if len(mapped_field_name) > 1:
                             raise SigmaConfigurationError(
